@@ -16,6 +16,15 @@ ADVERSARIAL = [
     "{ echo(s: null) echo(s: null) }",
     "{ echo(f: {min: 1}) echo(f: null) }",
     "{ echo(f: {tags: []}) echo(f: {tags: [null]}) }",
+    # malformed / undefined conditions at the top of a subscription (the single-root-field rule looks at exactly these selections)
+    "subscription { tick @include(if: $nope) }",
+    "subscription { tick @skip }",
+    "subscription { tick @skip(if: \"yes\") }",
+    "subscription { tick @include(if: null) }",
+    "subscription ($v: Boolean) { tick @include(if: $v) }",
+    "subscription { ...Missing @skip(if: $x) }",
+    "subscription ($v: Boolean!) { tick @include(if: $v) ping @skip(if: $v) { name } }",
+    "query ($v: [Boolean]) { count @skip(if: $v) ...F @include(if: [true]) } fragment F on Query { count @include(if: {a: 1}) }",
     # unknown names everywhere
     "{ ... on Nope { x } }",
     "fragment F on Nope { x } { ...F }",
